@@ -23,6 +23,10 @@ CLAIMED = {
    text="Lean theorems over a model of service/cache.go: after any presentation of (client, timestamp, service) every later presentation is flagged whatever other presentations and clean-ups happen in between, provided no clean-up ran when the timestamp was outside its window (once, once_window, by induction over histories of any length); a replay verdict always has an earlier presentation of exactly that triple as cause (exact); n concurrent atomic presentations of one authenticator under ANY lock-acquisition order accept exactly one (concurrent_once); the unrepaired four-section code is refuted by concrete schedules. Regenerated fact (go/ast): in the current source IsReplay, AddEntry and ClearOldEntries each touch the cache inside exactly one write-locked section. Tied to Go by bounded-exhaustive and long random histories under a fake clock, every schedule of 2-3 concurrent calls at the lock-acquisition yield points (cooperative scheduler), free-running parallel stress and a real-time cleaner history.",
    note="Go mutex semantics, the memory model and testing/synctest are trusted; the lock-shape extractor (go/ast walker in the harness) is trusted to see every access to entries/replayMap in cache.go; atomicity is proved from that fact, races are exhibited only by the schedule enumeration and stress.",
    technique="Lean 4 proof (invariants by induction over histories; atomic-step concurrency) + regenerated lock-shape fact + deterministic schedule enumeration via a build-tag hook", design="5/C02"),
+ "C03": dict(
+   text="Lean theorems over a model of spnego/http.go, spnego.go, negotiationToken.go, krb5Token.go on top of a Go-faithful model of the gofork/encoding/asn1 reflection decoder: the wrapped handler runs exactly when the request belongs to an authenticated session (with the session's identity) or its Authorization header carries an AP-REQ the acceptor accepts (with the accepted identity, and the new session stored when a manager is configured); every other request is answered 401 with a Negotiate challenge, or 500 exactly when the session store refuses the new session of an accepted request; the handler never panics; KRB5Token.Verify / NegTokenInit.Verify / NegTokenResp.Verify / AcceptSecContext say true only for (AcceptSecContext: exactly for) a token carrying an accepted AP-REQ, with status complete and that identity; the two unrepaired behaviours (KRB-ERROR token verifies, empty mechanism list panics) are refuted by witness. Tied to Go by driving the real handler (httptest, fake clock, scripted session manager) with AP-REQs minted by the real library and wrapped by an independent DER builder: every defect of a 78-entry catalogue (AP-REQ defects, mechanism OIDs and order, TOK_ID, AP-REP/KRB-ERROR/garbage bodies, tags, lax lengths, trailing bytes, header scheme and base64 variants, session states, RemoteAddr), pairs, bit flips over all wrapper bytes, replays; handler ran / identity / status / WWW-Authenticate / SessionMgr.New compared with the model; the token APIs compared on the same tokens.",
+   note=CRYPTO_NOTE + "The acceptor is the C01 model; 'carries an AP-REQ' is defined by the (Go-faithful, lenient) decoder model, so leniencies of gofork/asn1 (unchecked EXPLICIT wrapper lengths, ignored trailing bytes) are part of the definition and are exercised by the bit-flip stream; gob decoding of stored session credentials and net/http are outside the model (session states are scripted).",
+   technique="Lean 4 proof (iff over the handler decision logic, parser-directed specification) + differential run of the real HTTP handler against the model under synctest fake time", design="5/C03"),
  "C05": dict(
    text="Lean theorems over the RFC 3961/3962/8009/4757 specification: decrypt(encrypt(conf,pt)) = pt (des3: plus zero padding) for all six etypes and every length (CBC and ciphertext-stealing round trips by induction over blocks), ciphertext length, different confounders give different ciphertexts, rc4 message type = LE32(alias(usage)); regenerated facts (rc4 message-type bytes for 314 usages, etype parameter table) proved equal to the RFC values by kernel evaluation. The Go code is tied to this spec by interop in both directions over lengths 0..130 x usage set.",
    note=CRYPTO_NOTE, technique="Lean 4 proof (mode round trips, injectivity) + regenerated fact tables (decide) + two-direction differential interop against kmodel", design="5/C05"),
